@@ -100,10 +100,13 @@ def run_case_interleaved(a, a2, rnd, limit):
         ra, rb, fired = interleave.run(fa, fb, k)
         d = {"kind": "ok", "msg": ra[1]} if ra[0] == "ok" else {"kind": ra[1].split(":")[0], "msg": None}
         fresh = []
-        for r in (ra, rb):
-            if r[0] == "ok" and isinstance(r[1], dict) and isinstance(r[1].get("id"), str):
-                fresh.append(r[1]["id"])
-        both_fresh = a["id"] in ("none", "empty") and a2["id"] in ("none", "empty")
+        if ra[0] == "ok" and isinstance(ra[1], dict) and isinstance(ra[1].get("id"), str):
+            fresh.append(ra[1]["id"])
+        # the other caller's id takes part in the uniqueness test only when the library generated it as well
+        b_generated = a2["id"] in ("none", "empty") and a2["m"] == "str" and not a2["resp"] and not a2["notify"]
+        if b_generated and rb[0] == "ok" and isinstance(rb[1], dict) and isinstance(rb[1].get("id"), str) and rb[1]["id"] != "":
+            fresh.append(rb[1]["id"])
+        both_fresh = a["id"] in ("none", "empty") and b_generated
         recs.append({"a": a, "judged": True,
                      "in": {"method": enc(m), "params": enc(None if fault else p), "rpcid": enc(rid),
                             "fcode": enc(fault.faultCode if fault else None), "fmsg": enc(fault.faultString if fault else None),
